@@ -233,6 +233,15 @@ impl Chunking {
         };
         ra.check_alloc = false;
         rb.check_alloc = false;
+        // 10 %: twin a has had an earlier life and a reset(); twin b is fresh
+        if rng.chance(0.1) {
+            earlier_life(&mut ra, &mut Rng::new(sched_seed ^ 0x11fe));
+            st.add("twin_a_with_earlier_life_and_reset", 1.0);
+        }
+        // 30 %: set_resample_ratio_relative(1.0) on twin a before anything else - by the documentation a no-op
+        if pre_ratio.is_none() && sched_seed % 10 < 3 {
+            noop_relative(&mut ra);
+        }
         if let Some(v) = pre_ratio {
             ra.step(&Op::SetRatio { v, ramp: false, rel: false });
             rb.step(&Op::SetRatio { v, ramp: false, rel: false });
@@ -489,6 +498,23 @@ impl Monitor for Chunking {
 
 pub struct Acct;
 
+/// the ratio setters of an accounting stream go where its processing calls go: through
+/// `&mut dyn VecResampler` when the configuration says so
+fn set_abs<T: Smp>(r: &mut AnyRes<T>, cfg: &Cfg, v: f64, ramp: bool) -> rubato::ResampleResult<()> {
+    if cfg.via_dyn {
+        r.as_dyn().set_resample_ratio(v, ramp)
+    } else {
+        r.set_resample_ratio(v, ramp)
+    }
+}
+fn set_rel<T: Smp>(r: &mut AnyRes<T>, cfg: &Cfg, v: f64, ramp: bool) -> rubato::ResampleResult<()> {
+    if cfg.via_dyn {
+        r.as_dyn().set_resample_ratio_relative(v, ramp)
+    } else {
+        r.set_resample_ratio_relative(v, ramp)
+    }
+}
+
 impl Acct {
     fn case_t<T: Smp>(&self, ctx: &Ctx, idx: u64, st: &mut Stats) -> CaseResult {
         let mut rng = ctx.rng_for(idx);
@@ -521,6 +547,8 @@ impl Acct {
         // 15 %: the stream is driven through the allocating wrappers (process / process_partial), frames
         // counted as the lengths of the returned vectors
         let wrappers = rng.chance(0.15);
+        // 20 %: refused setter calls sprinkled over the stream
+        let refused = rng.chance(0.2);
         // marathons: a slow drift (a fraction of a frame lost per call) only crosses the constant after
         // ~1e5..1e6 calls, and only when the constant is small (short filter)
         let marathon = rng.chance(0.12);
@@ -555,6 +583,7 @@ impl Acct {
             .with("reset_after_calls", reset_at.map(|x| J::Int(x as i128)).unwrap_or(J::Null))
             .with("relative_ratio_detour_calls_x1_x2", detour.map(|d| J::Arr(vec![J::Int(d.0 as i128), J::f(d.1), J::f(d.2)])).unwrap_or(J::Null))
             .with("through_allocating_wrappers", J::b(wrappers))
+            .with("refused_setter_calls", J::b(refused))
             .with("frames_budget", J::Int(frames_budget as i128));
         set_desc(&desc);
         let mut cr = CaseResult { desc, ..Default::default() };
@@ -569,14 +598,14 @@ impl Acct {
             }
         };
         if let Some(v) = pre_ratio {
-            if r.set_resample_ratio(v, false).is_err() {
+            if set_abs(&mut r, &cfg, v, false).is_err() {
                 cr.inconclusive = Some("in-range ratio rejected (C12)".into());
                 return cr;
             }
         }
         let mut ratio = pre_ratio.unwrap_or(cfg.ratio);
         if let Some((_, x1, _)) = detour {
-            if r.set_resample_ratio_relative(x1, false).is_err() {
+            if set_rel(&mut r, &cfg, x1, false).is_err() {
                 cr.inconclusive = Some("in-range relative ratio rejected (C12)".into());
                 return cr;
             }
@@ -612,8 +641,15 @@ impl Acct {
         while tin + tout < frames_budget && calls < max_calls {
             if reset_at == Some(calls) && resets_done == 0 {
                 r.reset();
+                // reset() returns to the construction ratio; half of the streams stay there, the others
+                // set the earlier ratio again
                 if let Some(v) = pre_ratio {
-                    let _ = r.set_resample_ratio(v, false);
+                    if calls % 2 == 0 {
+                        let _ = set_abs(&mut r, &cfg, v, false);
+                    } else {
+                        ratio = cfg.ratio;
+                        bound = ratio * (l + 1.0 / ratio + 3.0) + 3.0;
+                    }
                 }
                 resets_done = 1;
                 tin = 0;
@@ -624,7 +660,7 @@ impl Acct {
             }
             if let Some((at, _, x2)) = detour {
                 if calls == at {
-                    if r.set_resample_ratio_relative(x2, false).is_err() {
+                    if set_rel(&mut r, &cfg, x2, false).is_err() {
                         cr.inconclusive = Some("in-range relative ratio rejected (C12)".into());
                         break;
                     }
@@ -638,6 +674,16 @@ impl Acct {
                     calls_at_restart = calls;
                     st.add("relative_ratio_detours", 1.0);
                 }
+            }
+            // refused setter calls (far outside the permitted interval) must leave the stream alone
+            if refused && calls % 7 == 3 && cfg.kind.is_async() {
+                let far = cfg.ratio * cfg.max_rel * if calls % 2 == 0 { 4.0 } else { 1.0 / (16.0 * cfg.max_rel * cfg.max_rel) };
+                let res = if calls % 3 == 0 { set_rel(&mut r, &cfg, far / cfg.ratio, calls % 5 == 0) } else { set_abs(&mut r, &cfg, far, calls % 5 != 0) };
+                if res.is_ok() {
+                    cr.inconclusive = Some("out-of-range ratio accepted (C12)".into());
+                    break;
+                }
+                st.add("refused_setter_calls_mid_stream", 1.0);
             }
             if sched && rng.chance(0.2) {
                 let n = match rng.ui(0, 3) {
@@ -912,6 +958,16 @@ impl Poly {
         ri.check_alloc = false;
         let mut rv = Runner::<T>::fresh(&cfg, sig.clone()).unwrap();
         rv.check_alloc = false;
+        // 10 %: the measured instance has had an earlier life and a reset(); the instant-measuring twin is fresh
+        if rng.chance(0.1) {
+            let s = rng.next();
+            earlier_life(&mut rv, &mut Rng::new(s));
+            st.add("streams_after_an_earlier_life_and_reset", 1.0);
+        }
+        if pre_ratio.is_none() && schedule.is_empty() && n_in % 10 < 3 {
+            // set_resample_ratio_relative(1.0): by the documentation a no-op
+            noop_relative(&mut rv);
+        }
         if let Some(v) = pre_ratio {
             ri.step(&Op::SetRatio { v, ramp: false, rel: false });
             rv.step(&Op::SetRatio { v, ramp: false, rel: false });
